@@ -71,6 +71,34 @@ def hooked_source(ctx):
     return ov, "hooks applied to a build-time copy of server/aof.go (proposed_fixes/c16_hooks.diff)"
 
 
+def startup_compaction(ctx, ov, runs):
+    """the start-up compaction of LoadAndInit must not run before every replayed record is applied (fixed 037cad8:
+    WaitFlushAofChannel returned while a signalled log channel still had queued records).  Implementation only,
+    schedule-dependent: a directory with 16000 persisted holds is restarted 12 times per run with GOMAXPROCS=2 and
+    rewrite.aof is measured after each start-up compaction."""
+    mod = os.path.join(vlib.VERIF, "harness", "aof")
+    ovj = {"Replace": {os.path.join(vlib.REPO, k): os.path.join(vlib.VERIF, v) for k, v in ov.items()}}
+    ovj["Replace"][os.path.join(vlib.REPO, "server", "zz_verif_c16_startup_test.go")] = os.path.join(mod, "startup", "zz_verif_c16_startup_test.go.txt")
+    ovp = os.path.join(vlib.BUILD, "c16-startup.overlay.json")
+    os.makedirs(vlib.BUILD, exist_ok=True)
+    json.dump(ovj, open(ovp, "w"))
+    res = {"runs": 0, "ran": False, "restarts_ok": 0}
+    for i in range(runs):
+        rc, out, dt = vlib.sh(["go", "test", "-tags", "verif", "-vet=off", "-v", "-count=1", "-timeout", "8m", "-overlay", ovp, "-run", "TestC16StartupCompactionNoHookDemo$",
+                               "github.com/snower/slock/server"], cwd=mod, timeout=600, env={"GOMAXPROCS": "2"})
+        res["runs"] += 1
+        res["restarts_ok"] += len(re.findall(r"^restart \d+: .* has 16000 records", out, flags=re.M))
+        m = re.search(r"C16 VIOLATED[^\n]*", out)
+        if m:
+            res["violated"], res["output"], res["ran"] = m.group(0), out, True
+            break
+        if rc != 0:
+            res["error"] = out[-800:]
+            return res
+        res["ran"] = True
+    return res
+
+
 def guard_switch(repo):
     """source switch of the guard state machine: which flag does the entry guard of rewriteAofFiles test?"""
     src = open(os.path.join(repo, "server", "aof.go")).read()
@@ -862,7 +890,7 @@ def run(ctx):
             g = Gen(rng)
             ops = []
             for r in range(rng.choice([1, 2, 3])):
-                ops += g.ops(rng.choice([3, 5, 8])) + ["settle", "rotate"]
+                ops += g.ops(rng.choice([3, 5, 8])) + (["adv:%d" % rng.choice([2, 3, 20, 61])] if rng.random() < 0.5 else []) + ["settle", "rotate"]
             ops += g.ops(rng.choice([0, 2, 4]))
             note_kinds(g)
             seqs.append(("s%d" % si, ops))
@@ -940,6 +968,20 @@ def run(ctx):
     finally:
         shutil.rmtree(base, ignore_errors=True)
 
+    # ---- start-up compaction under load (no model counterpart: goroutine schedule of the log channels)
+    su = startup_compaction(ctx, ov, 6 if thorough else 2)
+    stats["startup_compaction"] = su
+    if su.get("violated"):
+        witnesses.setdefault("startup-compaction:records-of-live-holds-dropped",
+                             ("the compaction that LoadAndInit starts after replaying the log ran before every replayed record was applied and dropped records of live holds: "
+                              + su["violated"][:300],
+                              {"scenario": "16000 holds persisted, compacted (rewrite.aof), one more hold; the directory is restarted 12 times with GOMAXPROCS=2; after each "
+                                           "start-up compaction rewrite.aof must still hold 16000 records",
+                               "how": "go test -tags verif -vet=off -count=1 -overlay <server/zz_verif_c16_startup_test.go = harness/aof/startup/zz_verif_c16_startup_test.go.txt> "
+                                      "-run 'TestC16StartupCompactionNoHookDemo$' github.com/snower/slock/server   (GOMAXPROCS=2; from harness/aof)",
+                               "output": su.get("output", "")[-3000:]}))
+    ctx.obligation("start-up compaction scenario ran (%d run(s) of 12 restarts each)" % su.get("runs", 0), su.get("ran", False), su.get("error", ""))
+
     ctx.obligation("model directory = implementation directory at every crash point (byte for byte; busy compactions: footprint files)", not mism, json.dumps(mism)[:1500] if mism else "")
     ctx.obligation("guard state machine = flags of the real Aof struct and start/drop outcome of every compaction request", not gmism, json.dumps(gmism)[:1500] if gmism else "")
     for sig, (what, replay) in witnesses.items():
@@ -964,6 +1006,7 @@ def run(ctx):
         "restarts": stats["restarts"], "monitor_hits": stats["hits"], "source_switches": dict(sw, guard_tests=gflag, stale_tmp_removed=fresh),
         "built_directories": stats.get("built_dirs", []), "busy": stats["busy"], "workload_op_kinds": stats["op_kinds"],
         "second_generation_runs": stats["second_generation"], "corpus": [c[0] for c in corpus],
+        "startup_compaction_under_load": {k: v for k, v in stats.get("startup_compaction", {}).items() if k != "output"},
     }
     ctx.trusted += [
         "crash points: add-only verifPoint(200..211) calls " + hooknote,
@@ -973,6 +1016,8 @@ def run(ctx):
         "guard events GDefer/GBarrier (follower rotation / consistency barrier) are proved about but not driven on the real code (single leader node); the admin guard is re-stated by the harness, the text handler is not called",
         "reference of the busy runs: the same history in a second process that never compacts (manual clocks started at the same t0)",
         "extraction: ExtrOcamlBasic only; ocaml/aof/driver.ml",
+        "start-up compaction under load (16000 persisted holds, 12 restarts per run with GOMAXPROCS=2, rewrite.aof measured after each start-up compaction): implementation "
+        "only, schedule-dependent, no model of the log-channel goroutines; a statistical detector of the defect repaired by 037cad8, not a proof of its absence",
     ]
     return ctx.finish(cov, ["crash = prefix of the ordered list of file-system mutations (of the interleaving with the appends, for a busy compaction)",
                             "appends are flushed before the directory is observed (settled marks); a compaction request arrives while another is parked at a crash point, not inside its scan"])
